@@ -808,6 +808,10 @@ class InterleaveInvariant:
         c = ctx()
         ns, nm, nb = self.n
         N = mkint(iadd(iadd(ns, nm), nb))
+        import ast as _ast
+        if not all(k in env.vars for k in ("x", "i_small", "i_med", "i_big", "r_small", "r_med", "r_big")) or \
+                not (isinstance(st.target, _ast.Name) and st.target.id == "i"):
+            raise NotApplicable("loop state of interleave_values not recognised (the invariant names the locals of the pinned code)")
         x0 = env.vars["x"]
         cnt0 = self.counts(x0)
         for nm_, g in self.inv(env.vars, 1, x0, cnt0):
@@ -871,7 +875,7 @@ def interleave_values_post(S, I, variant):
     big = S.real("big", lo_strict=med)
     fn = I.get(MOD, "Assertion.interleave_values")
     inv = InterleaveInvariant(S, ns, nm, nb, small.asnp(), med.asnp(), big.asnp())
-    I.invariants[("Assertion.interleave_values", 0)] = inv
+    I.invariants[("Assertion.interleave_values", "for", 0)] = inv
     from pyvc.interp import CutPath
     S.native_desc = None
     try:
